@@ -573,6 +573,55 @@ def gen_adapters(rng, knobs=None):
     return opts, prog
 
 
+def gen_adapters_mixed(rng, knobs=None):
+    """a core-API requester (recorded subscriber, explicit request(n) calls - several grants may pile up before the responder
+    runs, or arrive while a batch is being produced) against a handler written with the Rx / ReactiveX adapter: plain observables
+    and back-pressure factories as the responder's source, in streams and in both directions of channels"""
+    k = dict(knobs or {})
+    version = k.get('version') or rng.choice(['reactivex', 'rx'])
+    opts = {'mode': k.get('mode') or rng.choice(['tcp', 'tcp', 'msg']), 'frag': rng.choice([None, None, 64]), 'adapters': version,
+            'core_client': True, 'read_buffer': rng.choice([1, 7, 1024])}
+    prog = [['start'], ['pump']]
+    n_inter = rng.randint(1, 2)
+    kinds = []
+    for _ in range(n_inter):
+        kind = rng.choice(['stream', 'stream', 'channel'])
+        kinds.append(kind)
+        sp = spec(rng, big=False)
+        n = rng.choice([2, 3, 5, 8, 12, 20])
+        pol = {'src': rng.choice(['observable', 'observable', 'factory']), 'items': items(rng, n, big=rng.random() < 0.2)}
+        if rng.random() < 0.1:
+            pol['error_at'] = rng.randint(0, n)
+        n0 = rng.choice([1, 2, 4, 5])
+        if kind == 'stream':
+            prog.append(['stream', 'c', sp, n0, pol, True])
+        else:
+            pol['pub'] = True
+            pol['sub'] = rng.random() < 0.9
+            pol['limit'] = rng.choice([1, 2, 3, 2147483647])
+            has_pub = rng.random() < 0.7
+            ppol = src_policy(rng, ['generator', 'async_generator', 'scripted']) if has_pub else None
+            prog.append(['channel', 'c', sp, n0, pol, has_pub, ppol, True])
+        ref = len(kinds) - 1
+        for _ in range(rng.randint(1, 6)):
+            r = rng.random()
+            if r < 0.45:
+                # a burst of grants without letting the loop run in between
+                for _ in range(rng.choice([1, 2, 2, 3, 4])):
+                    prog.append(['request_n', ref, 'req', rng.choice([1, 1, 2, 3, 5, 9, 2147483647])])
+                prog.append(['pump'] if rng.random() < 0.8 else ['settle'])
+            elif r < 0.7:
+                prog.append(['pump'] if rng.random() < 0.6 else ['pump', rng.choice([1, 3, 11])])
+            elif r < 0.85:
+                prog.append(['deliver', rng.choice(['c', 's']), rng.choice([1, 9, 40, None]) if opts['mode'] == 'tcp' else rng.choice([1, 2, None])])
+            elif r < 0.92:
+                prog.append(['advance', rng.choice([1, 5])])
+            else:
+                prog.append(['cancel', ref, 'req'])
+    prog.append(['finish'])
+    return opts, prog
+
+
 def gen_tlc(rng, knobs=None):
     """schedules proposed by the specification: behaviours of the design model RSocketMC.tla produced by `tlc -simulate` are
     projected onto driver primitives (knobs: file = JSON list of {kind, init, haspub, lib, actions:[[name, args...]...]}).
@@ -582,7 +631,10 @@ def gen_tlc(rng, knobs=None):
     k = dict(knobs or {})
     with open(k['file']) as f:
         behaviours = json.load(f)
-    b = behaviours[rng.randrange(len(behaviours))]
+    if k.get('sequential'):
+        b = behaviours[(k.get('_i', 0) - k.get('base', 0)) % len(behaviours)]      # every behaviour of the file, in turn
+    else:
+        b = behaviours[rng.randrange(len(behaviours))]
     kind, R = b['kind'], b['init']
     P = 's' if R == 'c' else 'c'
     opts = {'mode': rng.choice(['tcp', 'tcp', 'msg']), 'frag': None, 'read_buffer': rng.choice([1, 7, 1024])}
